@@ -2,7 +2,7 @@
 C17 helper lemmas, part 2: expressions (`xreplace`, `syms`, `eval`), the symbol mapping of
 `rename`, and the predicates used by the property theorems.
 -/
-import Ampverif.Lemmas.C17Lists
+import Ampverif.Lemmas.C17Order
 
 namespace Ampverif.Model.C17
 
@@ -130,9 +130,21 @@ theorem mem_collect_of_collectsParams (v : Variant) (hv : v.collectsParams = tru
     s ∈ collect v m ↔ m.mentions s := by
   rw [mem_collect]; simp [Model.mentions, hv]
 
+/-- the list that `rename` looks targets up in -/
+def ordered (v : Variant) (m : Model) : List Sym := lookupOrder v (collect v m)
+
+theorem mem_lookupOrder (v : Variant) (l : List Sym) (s : Sym) : s ∈ lookupOrder v l ↔ s ∈ l := by
+  unfold lookupOrder
+  cases v.oneSymbolPerNewName
+  · simp
+  · simp only [if_true]; exact mem_isort _ _ _
+
+theorem mem_ordered (v : Variant) (m : Model) (s : Sym) : s ∈ ordered v m ↔ s ∈ collect v m :=
+  mem_lookupOrder v _ s
+
 theorem sigma_of_mem (v : Variant) (m : Model) (ρ : List (Name × Name)) (s : Sym)
-    (h : s ∈ collect v m) : sigma v m ρ s = target v ρ (collect v m) s := by
-  simp [sigma, applyMap, symbolMapping, alookup_map_self, h]
+    (h : s ∈ collect v m) : sigma v m ρ s = target v ρ (ordered v m) s := by
+  simp [sigma, applyMap, symbolMapping, alookup_map_self, h, ordered]
 
 theorem sigma_of_not_mem (v : Variant) (m : Model) (ρ : List (Name × Name)) (s : Sym)
     (h : s ∉ collect v m) : sigma v m ρ s = s := by
@@ -157,6 +169,14 @@ theorem existingNamed_none {ρ : List (Name × Name)} {symbols : List Sym} {n : 
   have := h t ht
   simp [hr] at this
 
+theorem existingNamed_eq_none {ρ : List (Name × Name)} {symbols : List Sym} {n : Name}
+    (h : ∀ t, t ∈ symbols → renameOf ρ t.name = none → t.name ≠ n) : existingNamed ρ symbols n = none := by
+  cases he : existingNamed ρ symbols n with
+  | none => rfl
+  | some t =>
+    obtain ⟨ht, hr, hn⟩ := existingNamed_some he
+    exact absurd hn (h t ht hr)
+
 theorem existingNamed_unique {ρ : List (Name × Name)} {symbols : List Sym} {n : Name} {b : Sym}
     (hb : b ∈ symbols) (hr : renameOf ρ b.name = none) (hn : b.name = n)
     (huniq : ∀ t, t ∈ symbols → t.name = n → t = b) :
@@ -167,6 +187,45 @@ theorem existingNamed_unique {ρ : List (Name × Name)} {symbols : List Sym} {n 
     obtain ⟨ht, _, htn⟩ := existingNamed_some h
     rw [huniq t ht htn]
 
+theorem firstSource_some {ρ : List (Name × Name)} {symbols : List Sym} {n : Name} {t : Sym}
+    (h : firstSource ρ symbols n = some t) : t ∈ symbols ∧ renameOf ρ t.name = some n := by
+  unfold firstSource at h
+  have h1 := List.mem_of_find?_eq_some h
+  have h2 := List.find?_some h
+  simp at h2
+  exact ⟨h1, h2⟩
+
+theorem firstSource_ne_none {ρ : List (Name × Name)} {symbols : List Sym} {n : Name} {s : Sym}
+    (hs : s ∈ symbols) (h : renameOf ρ s.name = some n) : firstSource ρ symbols n ≠ none := by
+  unfold firstSource
+  intro hn
+  rw [List.find?_eq_none] at hn
+  have := hn s hs
+  simp [h] at this
+
+/-- the new symbol carries the assumptions of some source of that name (of `s` itself before c9b6eb9) -/
+theorem freshTarget_spec {v : Variant} {ρ : List (Name × Name)} {symbols : List Sym} {s : Sym} {n' : Name}
+    (hs : s ∈ symbols) (h : renameOf ρ s.name = some n') :
+    ∃ a₀, a₀ ∈ symbols ∧ renameOf ρ a₀.name = some n' ∧ freshTarget v ρ symbols s n' = ⟨n', a₀.asm⟩ ∧
+      (v.oneSymbolPerNewName = false → a₀ = s) ∧
+      (v.oneSymbolPerNewName = true → firstSource ρ symbols n' = some a₀) := by
+  unfold freshTarget
+  cases hv : v.oneSymbolPerNewName
+  · exact ⟨s, hs, h, by simp, fun _ => rfl, fun e => by cases e⟩
+  · simp only [if_true]
+    cases hf : firstSource ρ symbols n' with
+    | none => exact absurd hf (firstSource_ne_none hs h)
+    | some a₀ =>
+      obtain ⟨h1, h2⟩ := firstSource_some hf
+      refine ⟨a₀, h1, h2, ?_, ?_, ?_⟩ <;> simp
+
+theorem freshTarget_name {v : Variant} {ρ : List (Name × Name)} {symbols : List Sym} {s : Sym} {n' : Name} :
+    (freshTarget v ρ symbols s n').name = n' := by
+  unfold freshTarget
+  cases v.oneSymbolPerNewName
+  · simp
+  · simp only [if_true]; cases firstSource ρ symbols n' <;> rfl
+
 theorem target_of_none {v : Variant} {ρ : List (Name × Name)} {symbols : List Sym} {s : Sym}
     (h : renameOf ρ s.name = none) : target v ρ symbols s = s := by
   simp [target, h]
@@ -176,26 +235,36 @@ theorem target_name {v : Variant} {ρ : List (Name × Name)} {symbols : List Sym
   unfold target
   rw [h]
   cases hv : v.reusesExisting
-  · simp
+  · simp [freshTarget_name]
   · simp only [if_true]
     cases he : existingNamed ρ symbols n' with
-    | none => rfl
+    | none => exact freshTarget_name
     | some t => exact (existingNamed_some he).2.2
 
+/-- no unrenamed symbol carries the new name: the image is the new symbol -/
 theorem target_fresh {v : Variant} {ρ : List (Name × Name)} {symbols : List Sym} {s : Sym} {n' : Name}
     (h : renameOf ρ s.name = some n')
     (hf : ∀ t, t ∈ symbols → renameOf ρ t.name = none → t.name ≠ n') :
-    target v ρ symbols s = ⟨n', s.asm⟩ := by
+    target v ρ symbols s = freshTarget v ρ symbols s n' := by
   unfold target
   rw [h]
   cases hv : v.reusesExisting
   · simp
   · simp only [if_true]
-    cases he : existingNamed ρ symbols n' with
-    | none => rfl
-    | some t =>
-      obtain ⟨ht, hr, hn⟩ := existingNamed_some he
-      exact absurd hn (hf t ht hr)
+    rw [existingNamed_eq_none hf]
+
+/-- since c9b6eb9 the image of a renamed symbol depends on its NEW name only -/
+theorem target_depends_on_new_name {v : Variant} (hv : v.oneSymbolPerNewName = true)
+    {ρ : List (Name × Name)} {symbols : List Sym} {a b : Sym} {n' : Name} (has : a ∈ symbols)
+    (ha : renameOf ρ a.name = some n') (hb : renameOf ρ b.name = some n') :
+    target v ρ symbols a = target v ρ symbols b := by
+  have hne := firstSource_ne_none has ha
+  unfold target freshTarget
+  rw [ha, hb]
+  simp only [hv, if_true]
+  cases hf : firstSource ρ symbols n' with
+  | none => exact absurd hf hne
+  | some a₀ => rfl
 
 theorem target_nameMap {v : Variant} {ρ : List (Name × Name)} {symbols : List Sym} (s : Sym) :
     (target v ρ symbols s).name = nameMap ρ s.name := by
@@ -256,8 +325,21 @@ def witnessModel : Model :=
 def twoKinModel : Model :=
   { witnessModel with kinvars := [(⟨nTheta, 3⟩, .app 6 [.sym p0]), (x, .app 4 [.sym p0])] }
 
-def unsoundNoParams : Variant := ⟨false, true⟩
-def unsoundNoReuse : Variant := ⟨true, false⟩
+/-- a second parameter with other assumptions than `a`, to merge with it under a fresh name -/
+def g : Sym := ⟨[103], 2⟩
+
+def mergeModel : Model :=
+  { witnessModel with
+    expr := .app 0 [.app 2 [.app 1 [.sym a, .sym x]], .app 2 [.app 1 [.sym g, .sym x, .sym a]]]
+    amplitudes := [⟨[65, 91, 48, 93], .app 3 [.sym ⟨[65], 4⟩, .const 0], .app 1 [.sym a, .sym x]⟩,
+                   ⟨[65, 91, 49, 93], .app 3 [.sym ⟨[65], 4⟩, .const 1], .app 1 [.sym g, .sym x, .sym a]⟩]
+    params := [(a, 0), (g, 1)] }
+
+def unsoundNoParams : Variant := ⟨false, true, true⟩
+/-- the tree before 137fbcb -/
+def unsoundNoReuse : Variant := ⟨true, false, false⟩
+/-- the tree between 137fbcb and c9b6eb9 -/
+def unsoundManySymbols : Variant := ⟨true, true, false⟩
 
 end Witness
 
